@@ -361,6 +361,10 @@ def method_mutates(cls, fdef, tree, seen=()) -> bool:
         if isinstance(n, ast.Call) and isinstance(n.func, ast.Attribute):
             if self_rooted(n.func.value, self_name) and n.func.attr in MUTATING_METHODS:
                 return True
+            if isinstance(n.func.value, ast.Name) and n.func.value.id == 'dict' and n.func.attr in MUTATING_METHODS \
+                    and n.args and (self_rooted(n.args[0], self_name)
+                                    or (isinstance(n.args[0], ast.Name) and n.args[0].id == self_name)):
+                return True                                      # dict.__setitem__(self, ...) and the like
             if isinstance(n.func.value, ast.Name) and n.func.value.id == self_name:
                 for sp in method_specs(cls, n.func.attr):
                     if sp['lean_name'] in seen:
@@ -398,6 +402,21 @@ class FnTranslator:
                 raise Unsupported(fdef, 'a generator that changes the object state')
         self.tparams = list(spec.get('tparams', (self.cls or {}).get('tparams', [])))
         self.deceq = list(spec.get('deceq', (self.cls or {}).get('deceq', [])))
+        sentinels = list(spec.get('sentinels', (self.cls or {}).get('sentinels', [])))
+        if sentinels:
+            # module-level "argument omitted" markers (`_MISSING`) of a parameter declared `Option T`: read as None
+            import copy
+            self.f = fdef = copy.deepcopy(fdef)
+
+            class _S(ast.NodeTransformer):
+                def visit_Name(self, n):
+                    if n.id in sentinels and isinstance(n.ctx, ast.Load):
+                        return ast.copy_location(ast.Constant(value=None), n)
+                    return n
+            _S().visit(fdef)
+            for n in ast.walk(fdef):
+                if isinstance(n, ast.Name) and n.id in sentinels:
+                    raise Unsupported(n, 'assignment to a sentinel name')
         self.self_attrs = dict(spec.get('self_attrs', {}))      # attr -> type text
         self.self_len = spec.get('self_len', False)
         self.guard_names = list(spec.get('guards', []))
@@ -672,7 +691,36 @@ class FnTranslator:
 
     def _is_place(self, tgt):
         """an attribute of `self` / an item of one: assignable, nothing to infer"""
-        return self.cls is not None and self_rooted(tgt, self.self_name)
+        return self.cls is not None and (self_rooted(tgt, self.self_name) or self.dict_view(
+            tgt.value if isinstance(tgt, ast.Subscript) else None) is not None)
+
+    def cls_defines(self, name) -> bool:
+        """does the class body define (override) method `name`?"""
+        cdef = None
+        for n in self.tree.body:
+            if isinstance(n, ast.ClassDef) and n.name == self.cls['name']:
+                cdef = n
+        if cdef is None:
+            raise Unsupported(self.f, 'class %s not found' % self.cls['name'])
+        return any(isinstance(n, ast.FunctionDef) and n.name == name for n in cdef.body) or any(
+            isinstance(n, ast.Assign) and any(isinstance(t, ast.Name) and t.id == name for t in n.targets)
+            for n in cdef.body)
+
+    def dict_view(self, node):
+        """`self` of a dict subclass (spec `dict_base`) / `self.<peer>`: the state attribute holding the dict
+        that the object IS, and whether it is the peer object; else None"""
+        if self.cls is None or node is None:
+            return None
+        if isinstance(node, ast.Name) and node.id == self.self_name and self.cls.get('dict_base'):
+            return self.cls['dict_base'], False
+        peer = self.cls.get('peer')
+        if peer and isinstance(node, ast.Attribute) and isinstance(node.value, ast.Name) \
+                and node.value.id == self.self_name and node.attr == peer['attr']:
+            return peer['swap'][self.cls['dict_base']], True
+        return None
+
+    def view_term(self, attr):
+        return 's.self.%s' % lean_field(attr)
 
     def _infer_block(self, stmts, nn=frozenset()):
         for st in stmts:
@@ -725,6 +773,8 @@ class FnTranslator:
                     var, op, arg = m
                     if op == 'append':
                         self._bind(var, ('List', self._type_of(arg, nn)), st)
+                    elif op == 'extend':
+                        self._bind(var, self._type_of(arg, nn), st)
 
     def _iter_type(self, node, nn=frozenset()):
         if isinstance(node, ast.Call) and isinstance(node.func, ast.Name) and node.func.id == 'range':
@@ -743,8 +793,12 @@ class FnTranslator:
     def _mutation(self, call: ast.Call):
         """`v.append(e)` / `v.pop()` on a local list variable -> (v, op, arg)"""
         if isinstance(call.func, ast.Attribute) and isinstance(call.func.value, ast.Name) \
-                and call.func.attr in ('append', 'pop') and not call.keywords:
+                and call.func.attr in ('append', 'pop', 'extend') and not call.keywords:
             v = call.func.value.id
+            if call.func.attr == 'extend':
+                if len(call.args) == 1 and self.cls is not None and v in self.vars:
+                    return v, 'extend', call.args[0]
+                return None
             if call.func.attr == 'append' and len(call.args) == 1:
                 return v, 'append', call.args[0]
             if call.func.attr == 'pop' and not call.args:
@@ -768,7 +822,10 @@ class FnTranslator:
         for n in ast.walk(ast.Module(body=self.body, type_ignores=[])):
             if isinstance(n, ast.Assign):
                 for tgt in n.targets:
-                    if isinstance(tgt, ast.Name) and tgt.id in mutated and not isinstance(n.value, ast.List):
+                    fresh_copy = (self.cls is not None and isinstance(n.value, ast.Call)
+                                  and isinstance(n.value.func, ast.Name) and n.value.func.id == 'list')
+                    if isinstance(tgt, ast.Name) and tgt.id in mutated and not isinstance(n.value, ast.List) \
+                            and not fresh_copy:
                         raise Unsupported(n, 'mutated list %s assigned from a non-fresh value' % tgt.id)
                 if isinstance(n.value, ast.Name) and n.value.id in mutated:
                     raise Unsupported(n, 'alias of mutated list %s' % n.value.id)
@@ -814,6 +871,18 @@ class FnTranslator:
             callee = self._method_call(st.value, ctx)
             if callee is not None and callee['mutates']:
                 return self._call_stmt(callee, st.value, st.targets[0], rest, k, ctx, ex)
+            tgt0 = st.targets[0]
+            dv = self.dict_view(tgt0.value) if isinstance(tgt0, ast.Subscript) else None
+            if dv is not None:
+                return self._view_store(dv, tgt0, st.value, st, rest, k, ctx, ex)
+            raw = self._raw_dict(st.value)
+            if raw is not None:
+                val, vt, upd = self._raw_dict_value(raw, st.value, ex)
+                if val is None:
+                    raise Unsupported(st, 'dict.%s returns nothing' % raw[0])
+                self._bind_value(tgt0, val, vt, upd, st)
+                ctx2 = self._forget(ctx, [st])
+                return self._wrap(ex, self._let_update(upd) + '\n' + self.block(rest, k, ctx2), ctx)
             self._assign(st.targets[0], st.value, upd, ex, st)
             ctx2 = self._forget(ctx, [st])
             return self._wrap(ex, self._let_update(upd) + '\n' + self.block(rest, k, ctx2), ctx)
@@ -833,6 +902,17 @@ class FnTranslator:
             ast.fix_missing_locations(val)
             e, t = ex.expr(val, self.vars[st.target.id])
             return self._wrap(ex, self._let_update([(st.target.id, e)]) + '\n' + self.block(rest, k, ctx), ctx)
+        if isinstance(st, ast.Delete) and len(st.targets) == 1 and isinstance(st.targets[0], ast.Subscript) \
+                and self.dict_view(st.targets[0].value) is not None:
+            return self._view_store(self.dict_view(st.targets[0].value), st.targets[0], None, st, rest, k, ctx, ex)
+        if isinstance(st, ast.Expr) and isinstance(st.value, ast.Call) and isinstance(st.value.func, ast.Name) \
+                and st.value.func.id == 'hash' and len(st.value.args) == 1 and not st.value.keywords \
+                and isinstance(st.value.args[0], ast.Name) and self.cls is not None:
+            ex.expr(st.value.args[0])           # `hash(x)` of a key-typed variable: the spec fixes hashable keys
+            return self.block(rest, k, ctx)
+        if isinstance(st, ast.Expr) and isinstance(st.value, ast.Call) and self._raw_dict(st.value) is not None:
+            _, _, upd = self._raw_dict_value(self._raw_dict(st.value), st.value, ex)
+            return self._wrap(ex, self._let_update(upd) + '\n' + self.block(rest, k, ctx), ctx)
         if isinstance(st, ast.Delete):
             upd = []
             for tgt in st.targets:
@@ -857,6 +937,9 @@ class FnTranslator:
             if op == 'append':
                 a, _ = ex.expr(arg, vt[1])
                 e = 'PyRt.append s.%s %s' % (self.field(var), a)
+            elif op == 'extend':
+                a, at = ex.expr(arg, vt)
+                e = '(s.%s ++ %s)' % (self.field(var), a)
             else:
                 e = 'PyRt.popLast s.%s' % self.field(var)
             return self._wrap(ex, self._let_update([(var, e)]) + '\n' + self.block(rest, k, ctx), ctx)
@@ -886,6 +969,12 @@ class FnTranslator:
                 callee = self._method_call(st.value, ctx)
                 if callee is not None and callee['mutates']:
                     return self._call_stmt(callee, st.value, 'return', rest, k, ctx, ex)
+                raw = self._raw_dict(st.value)
+                if raw is not None:
+                    val, vt, upd = self._raw_dict_value(raw, st.value, ex)
+                    if val is None or vt != self.result_t:
+                        raise Unsupported(st, 'result of dict.%s' % raw[0])
+                    return self._wrap(ex, self._let_update(upd) + '\n' + self.ret(val), ctx)
             if self.result_t == UNIT:
                 if st.value is not None and not (isinstance(st.value, ast.Constant) and st.value.value is None):
                     raise Unsupported(st, 'a value returned from a function declared to return None')
@@ -1000,6 +1089,82 @@ class FnTranslator:
             parts.insert(0, 'self := { s.self with %s }' % ', '.join(
                 '%s := %s' % (lean_field(a), e) for a, e in obj))
         return 'let s : %s := { s with %s }' % (self.st, ', '.join(parts))
+
+    # -- a dict subclass: `self` / `self.<peer>` used as the dict they are ------------------------------
+    def _view_store(self, dv, tgt, value, st, rest, k, ctx, ex):
+        """`X[k] = v` (value given) / `del X[k]` (value None) where X is `self` or the peer object: the class's
+        own `__setitem__` / `__delitem__` when it defines one (then it must be in the spec), else the dict's"""
+        attr, peer = dv
+        if isinstance(tgt.slice, ast.Slice):
+            raise Unsupported(st, 'slice')
+        dunder = '__setitem__' if value is not None else '__delitem__'
+        if self.cls_defines(dunder):
+            args = [tgt.slice] + ([value] if value is not None else [])
+            callee = self.callee(dunder, args, [], st, ctx.get('nn', frozenset()))
+            if callee is None:
+                raise Unsupported(st, '%s is overridden by the class but not in the spec' % dunder)
+            return self._call_stmt(callee, st, None, rest, k, ctx, ex, peer=peer)
+        t = self.cls_state[attr]
+        d = self.view_term(attr)
+        if value is not None:
+            v, _ = ex.expr(value, t[2])
+            kx, _ = ex.expr(tgt.slice, t[1])
+            new = '(PyRt.Dict.set %s %s %s)' % (d, kx, v)
+        else:
+            kx, _ = ex.expr(tgt.slice, t[1])
+            new = ex.partial('PyRt.Dict.del? %s %s' % (d, kx), st) if self.raises else \
+                '(PyRt.Dict.erase %s %s)' % (d, kx)
+        return self._wrap(ex, self._let_update([('self.' + attr, new)]) + '\n' + self.block(rest, k, ctx), ctx)
+
+    RAW_DICT = ('__setitem__', '__delitem__', 'clear', 'pop', 'popitem')
+
+    def _raw_dict(self, node):
+        """`dict.<m>(X, args)` with X = `self` / the peer: the dict's own operation, bypassing the class's
+        overrides -> (m, state attribute, args) or None"""
+        if isinstance(node, ast.Call) and isinstance(node.func, ast.Attribute) \
+                and isinstance(node.func.value, ast.Name) and node.func.value.id == 'dict' \
+                and 'dict' not in self.vars and node.args and self.dict_view(node.args[0]) is not None:
+            if node.func.attr not in self.RAW_DICT or node.keywords:
+                raise Unsupported(node, 'dict.%s' % node.func.attr)
+            return node.func.attr, self.dict_view(node.args[0])[0], node.args[1:]
+        return None
+
+    def _raw_dict_value(self, raw, node, ex):
+        """-> (value term or None, its type, state updates); arguments are evaluated left to right"""
+        m, attr, args = raw
+        t = self.cls_state[attr]
+        d = self.view_term(attr)
+        if not self.raises:
+            raise Unsupported(node, 'dict.%s outside the raising mode' % m)
+        if m == '__setitem__' and len(args) == 2:
+            kx, _ = ex.expr(args[0], t[1])
+            vx, _ = ex.expr(args[1], t[2])
+            return None, None, [('self.' + attr, '(PyRt.Dict.set %s %s %s)' % (d, kx, vx))]
+        if m == '__delitem__' and len(args) == 1:
+            kx, _ = ex.expr(args[0], t[1])
+            return None, None, [('self.' + attr, ex.partial('PyRt.Dict.del? %s %s' % (d, kx), node))]
+        if m == 'clear' and not args:
+            return None, None, [('self.' + attr, '([] : %s)' % show_type(t))]
+        if m == 'pop' and len(args) == 1:
+            kx, _ = ex.expr(args[0], t[1])
+            v = ex.partial('PyRt.Dict.pop? %s %s' % (d, kx), node)
+            return v + '.1', t[2], [('self.' + attr, v + '.2')]
+        if m == 'popitem' and not args:
+            v = ex.partial('PyRt.Dict.popitem? %s' % d, node)
+            return v + '.1', ('Prod', (t[1], t[2])), [('self.' + attr, v + '.2')]
+        raise Unsupported(node, 'dict.%s with these arguments' % m)
+
+    def _bind_value(self, tgt, val, vt, upd, node):
+        """`x = <value>` / `a, b = <pair value>` for a value that is already a Lean term"""
+        if isinstance(tgt, ast.Name):
+            if self.vars.get(tgt.id) != vt:
+                raise Unsupported(node, 'type of the assigned value')
+            upd.append((tgt.id, val))
+        elif isinstance(tgt, (ast.Tuple, ast.List)) and vt[0] == 'Prod' and len(vt[1]) == len(tgt.elts):
+            for i, (e, et) in enumerate(zip(tgt.elts, vt[1])):
+                self._bind_value(e, prod_proj(val, i, len(vt[1])), et, upd, node)
+        else:
+            raise Unsupported(node, 'assignment target')
 
     # -- places: attributes of self and items of them ---------------------------------------------
     def _place(self, node, ex):
@@ -1152,8 +1317,9 @@ class FnTranslator:
                     'result': ('List', res) if sp['kind'] == 'generator' else res}
         raise Unsupported(node, 'no translated variant of %s fits the arguments (%s)' % (pyname, why))
 
-    def call_app(self, callee, ex, node, ctx=None):
-        """Lean application of a translated method to `s.self` and the (translated) arguments"""
+    def call_app(self, callee, ex, node, ctx=None, peer=False):
+        """Lean application of a translated method to `s.self` (the peer object: to the swapped state) and the
+        (translated) arguments"""
         if callee['raises'] and not self.raises:
             raise Unsupported(node, 'call of a raising method outside the raising mode')
         if callee['lean_name'] == self.name and not (self.fuel and callee['fuel']):
@@ -1166,20 +1332,20 @@ class FnTranslator:
         parts = [callee['lean_name']]
         if callee['fuel']:
             parts.append('fuel')
-        parts.append('s.self')
+        parts.append('(%s.St.swap s.self)' % self.cls['lean_name'] if peer else 's.self')
         for a, pt in callee['args']:
             parts.append(self._atom(ex.expr(a, pt)[0]))
         if callee['kwargs'] is not None:
             parts.append('([] : %s)' % show_type(callee['kwargs']))
         return ' '.join(parts)
 
-    def _call_stmt(self, callee, node, tgt, rest, k, ctx, ex):
+    def _call_stmt(self, callee, node, tgt, rest, k, ctx, ex, peer=False):
         """statement-level call of a state-changing method: `self.m(..)`, `x = self.m(..)`, `return self.m(..)`"""
-        app = self.call_app(callee, ex, node, ctx)
+        app = self.call_app(callee, ex, node, ctx, peer)
         r = self.fresh('r')
 
         def after(val, st1):
-            upd = 'self := %s' % st1
+            upd = 'self := %s' % (('(%s.St.swap %s)' % (self.cls['lean_name'], st1)) if peer else st1)
             if tgt == 'return':
                 if callee['result'] != self.result_t:
                     raise Unsupported(node, 'result type of the called method')
@@ -1193,8 +1359,9 @@ class FnTranslator:
             return 'let s : %s := { s with %s }\n%s' % (self.st, upd, self.block(rest, k, ctx2))
         if callee['raises']:
             need = tgt is not None
-            text = ('(match %s with\n| (.error e, st1) =>\n  let s : %s := { s with self := st1 }\n  %s\n'
-                    '| (.ok %s, st1) =>\n%s)' % (app, self.st, self._raise('e', ctx), r if need else '_',
+            st1x = ('(%s.St.swap st1)' % self.cls['lean_name']) if peer else 'st1'
+            text = ('(match %s with\n| (.error e, st1) =>\n  let s : %s := { s with self := %s }\n  %s\n'
+                    '| (.ok %s, st1) =>\n%s)' % (app, self.st, st1x, self._raise('e', ctx), r if need else '_',
                                                  indent(after(r, 'st1'))))
         else:
             text = 'let %s := %s\n%s' % (r, app, after(r + '.1', r + '.2'))
@@ -1379,6 +1546,14 @@ class ExprTr:
             return '(PyRt.unwrap s.%s)' % self.fn.field(name), t[1]
         return 's.' + self.fn.field(name), t
 
+    def view(self, dv, dunder, node):
+        """`self` / the peer object used as the dict it is, in an operation the class does not override"""
+        attr, peer = dv
+        if self.fn.cls_defines(dunder):
+            raise Unsupported(node, '%s is overridden by the class%s' % (
+                dunder, ' (peer object)' if peer else ''))
+        return self.fn.view_term(attr), self.fn.cls_state[attr]
+
     def partial(self, term, node):
         """a partial operation of the raising mode: bound once, before the statement, in evaluation order"""
         if self.infer_only:
@@ -1556,7 +1731,11 @@ class ExprTr:
             callee = self.fn._method_call(node, {'nn': self.nn}) if self.env is None else None
             if callee is not None:
                 return self._method_value(callee, node)
-            base, bt = self.expr(node.value)
+            dv = self.fn.dict_view(node.value) if self.env is None else None
+            if dv is not None:
+                base, bt = self.view(dv, '__getitem__', node)
+            else:
+                base, bt = self.expr(node.value)
             if bt[0] == 'Prod' and not isinstance(node.slice, ast.Slice):
                 i = self.const_index(node.slice, len(bt[1]))
                 if bt[1][i] is None:
@@ -1696,6 +1875,16 @@ class ExprTr:
 
     def _call(self, node: ast.Call, expected):
         fn = self.fn
+        if self.env is None and fn.cls is not None and fn._raw_dict(node) is not None:
+            m, attr, _ = fn._raw_dict(node)
+            t = fn.cls_state[attr]
+            if not self.infer_only:
+                raise Unsupported(node, 'dict.%s(...) of the object inside an expression' % m)
+            if m == 'pop':
+                return 'r0', t[2]
+            if m == 'popitem':
+                return 'r0', ('Prod', (t[1], t[2]))
+            return 'r0', UNIT
         if isinstance(node.func, ast.Attribute) and self.env is None:
             callee = fn._method_call(node, {'nn': self.nn})
             if callee is not None:
@@ -1740,6 +1929,10 @@ class ExprTr:
             f = node.func.id
             a = node.args
             if f == 'len' and len(a) == 1:
+                if isinstance(a[0], ast.Name) and a[0].id == fn.self_name and self.env is None \
+                        and fn.dict_view(a[0]) is not None:
+                    d, dt = self.view(fn.dict_view(a[0]), '__len__', node)
+                    return '(PyRt.Dict.len %s)' % d, INT
                 if isinstance(a[0], ast.Name) and a[0].id == fn.self_name and self.env is None:
                     if not fn.self_len:
                         raise Unsupported(node, 'len(self) not declared in the spec')
@@ -1877,7 +2070,11 @@ class ExprTr:
                         raise Unsupported(node, '__contains__ must return a Bool')
                     p = '(%s = true)' % v
                     return p if isinstance(op, ast.In) else '(¬ %s)' % p
-                r, rt = self.expr(right)
+                dv = self.fn.dict_view(right) if self.env is None else None
+                if dv is not None:
+                    r, rt = self.view(dv, '__contains__', node)
+                else:
+                    r, rt = self.expr(right)
                 if rt[0] == 'Dict' and has_deceq(unify(lt, rt[1], node), self.fn.deceq):
                     p = '(PyRt.Dict.contains %s %s = true)' % (r, l)
                     return p if isinstance(op, ast.In) else '(¬ %s)' % p
@@ -1956,6 +2153,15 @@ def class_state_text(cls) -> str:
     for a, t in cls['state'].items():
         f = lean_field(a)
         out.append('  %s : %s%s' % (f, show_type(parse_type(t)), '' if f == a else '    -- ' + a))
+    if cls.get('peer'):
+        # `self.<peer attr>` is an object of the same class whose state is this record seen from the other side
+        tps = ''.join(' ' + p for p in tp)
+        out.append('')
+        out.append('/-- the state of `self.%s` (same class, same two dicts, roles exchanged) -/' % cls['peer']['attr'])
+        out.append('def %s.St.swap %s(st : %s.St%s) : %s.St%s :=\n  { %s }' % (
+            cls['lean_name'], ('{%s : Type} ' % ' '.join(tp)) if tp else '', cls['lean_name'], tps,
+            cls['lean_name'], tps,
+            ', '.join('%s := st.%s' % (lean_field(a), lean_field(b)) for a, b in cls['peer']['swap'].items())))
     return '\n'.join(out) + '\n'
 
 
